@@ -61,10 +61,10 @@ func resolveMergedAnchors(p *Program) *mergedAnchors {
 			var rf, xf string
 			for i := 0; i < 2; i++ {
 				if nt2, ok := st.Field(i).Type().(*types.Named); ok && isIface(nt2) && nt2.Obj().Pkg() == p.Main.Types {
-					rf = st.Field(i).Name()
+					rf = fname(st.Field(i))
 				}
 				if isInt(st.Field(i).Type()) {
-					xf = st.Field(i).Name()
+					xf = fname(st.Field(i))
 				}
 			}
 			if rf != "" && xf != "" {
@@ -247,7 +247,7 @@ func checkMergedView(p *Program, r *Report) {
 		est := a.entryT.Underlying().(*types.Struct)
 		var recT, idxT types.Type
 		for i := 0; i < est.NumFields(); i++ {
-			if est.Field(i).Name() == a.recField {
+			if fname(est.Field(i)) == a.recField {
 				recT = est.Field(i).Type()
 			} else {
 				idxT = est.Field(i).Type()
@@ -447,7 +447,7 @@ func checkMergedView(p *Program, r *Report) {
 			st := a.iterT.Underlying().(*types.Struct)
 			for i := 0; i < st.NumFields(); i++ {
 				if b, ok := st.Field(i).Type().Underlying().(*types.Basic); ok && b.Kind() == types.Bool {
-					sup = mk("init", "", nil, mk("field", a.iterT.Obj().Name()+"."+st.Field(i).Name(), nil, recv))
+					sup = mk("init", "", nil, mk("field", a.iterT.Obj().Name()+"."+fname(st.Field(i)), nil, recv))
 				}
 			}
 			isDel := mk("pcall", delName, nil, rec, memSnap(s.St, rec))
@@ -532,7 +532,7 @@ func checkMergedView(p *Program, r *Report) {
 					if entry.Op == "struct" {
 						est := a.entryT.Underlying().(*types.Struct)
 						for i := 0; i < est.NumFields(); i++ {
-							if est.Field(i).Name() == a.idxField {
+							if fname(est.Field(i)) == a.idxField {
 								idx = entry.Args[i]
 							}
 						}
@@ -864,7 +864,7 @@ func checkIndexStable(p *Program, r *Report, a *mergedAnchors) {
 func isSliceTyped(t *types.Named, aux string) bool {
 	st := t.Underlying().(*types.Struct)
 	for i := 0; i < st.NumFields(); i++ {
-		if t.Obj().Name()+"."+st.Field(i).Name() == aux {
+		if t.Obj().Name()+"."+fname(st.Field(i)) == aux {
 			_, ok := st.Field(i).Type().(*types.Slice)
 			return ok
 		}
